@@ -382,32 +382,55 @@ theorem compute_scores_def (fuel : Nat) (k : Consts K) (s : Store K) (r : Comput
       subst h
       exact ⟨eff, res, rfl, hc, rfl, rfl, rfl⟩
 
+/-- For a valid request the vector returned by `basic.Compute` on the effective inputs has the
+    documented dimension and is well-formed. -/
+theorem compute_result_wf (fuel : Nat) (k : Consts K) (s : Store K) {r : ComputeReq K}
+    (hv : ValidReq r) {eff : Effective K} (hp : prepare k s r = some eff)
+    {res : ComputeResult K} (hc : compute fuel eff.c eff.p eff.a eff.e eff.opts = .ok res) :
+    res.t.dim = docDim r ∧ WF (docDim r) res.t.entries := by
+  obtain ⟨_, d1, d2, d3, d4, d5, d6, d7, d8, d9⟩ := prepare_dims k s hv hp
+  obtain ⟨_, hdef⟩ := prepare_defaults k s hv hp
+  obtain ⟨_, hres, _⟩ := C05.compute_spec fuel eff.c eff.p eff.a eff.e eff.opts res hc
+  refine ⟨by rw [hres]; exact d1, ?_⟩
+  rw [hres]
+  simp only
+  apply wf_iterate
+  · rw [Mx.transpose_length]; exact d2
+  · exact wf_vecScale _ d5
+  · rw [hdef.2.1]
+    cases ht : eff.t0 with
+    | none => exact d5
+    | some t => exact (d9 t ht).2
+
 /-- For a valid request the scores have size `n = docDim r` and their entries are keyed by peer
     index: strictly increasing indices, all below `n`. -/
 theorem scores_size (fuel : Nat) (k : Consts K) (s : Store K) {r : ComputeReq K}
     (hv : ValidReq r) (o : ComputeOut K) (h : computeCore fuel k s r = .ok o) :
     o.scores.dim = docDim r ∧ WF (docDim r) o.scores.entries := by
   obtain ⟨eff, res, hp, hc, hs, _, _⟩ := compute_scores_def fuel k s r o h
-  obtain ⟨_, d1, d2, d3, d4, d5, d6, d7, d8, d9⟩ := prepare_dims k s hv hp
-  obtain ⟨_, hdef⟩ := prepare_defaults k s hv hp
-  obtain ⟨_, hres, _⟩ := C05.compute_spec fuel eff.c eff.p eff.a eff.e eff.opts res hc
-  have hdim : res.t.dim = docDim r := by rw [hres]; exact d1
-  have hwf : WF (docDim r) res.t.entries := by
-    rw [hres]
-    simp only
-    apply wf_iterate
-    · rw [Mx.transpose_length]; exact d2
-    · exact wf_vecScale _ d5
-    · rw [hdef.2.1]
-      cases ht : eff.t0 with
-      | none => exact d5
-      | some t => exact (d9 t ht).2
+  obtain ⟨_, _, _, _, _, _, _, d7, d8, _⟩ := prepare_dims k s hv hp
+  obtain ⟨hdim, hwf⟩ := compute_result_wf fuel k s hv hp hc
   rw [hs]
   refine ⟨hdim, ?_⟩
   have := C08.discount_wf res.t eff.discounts (by rw [hdim]; exact hwf)
     (by rw [hdim, ← d7]; exact d8.2)
   rw [C08.discount_dim, hdim] at this
   exact this
+
+/-- Negative trust is applied as a reputation-weighted discount after convergence: with `t` the
+    vector `basic.Compute` returns for the effective inputs and `D` the effective discount
+    matrix, `score_j = t_j - Σ_{i<n} t_i · D_ij`. -/
+theorem scores_discounted (fuel : Nat) (k : Consts K) (s : Store K) {r : ComputeReq K}
+    (hv : ValidReq r) (o : ComputeOut K) (h : computeCore fuel k s r = .ok o) :
+    ∃ eff res, prepare k s r = some eff ∧
+      compute fuel eff.c eff.p eff.a eff.e eff.opts = .ok res ∧
+      ∀ j, denE o.scores.entries j = denE res.t.entries j -
+        ∑ i ∈ Finset.range (docDim r), denE res.t.entries i * denRows eff.discounts.rows i j := by
+  obtain ⟨eff, res, hp, hc, hs, _, _⟩ := compute_scores_def fuel k s r o h
+  obtain ⟨hdim, hwf⟩ := compute_result_wf fuel k s hv hp hc
+  refine ⟨eff, res, hp, hc, fun j => ?_⟩
+  rw [hs, C08.discount_spec res.t eff.discounts (by rw [hdim]; exact hwf) j, hdim]
+  rfl
 
 /-- Over exact arithmetic a valid request is never answered 500: with the handler's constants
     in range (`0 ≤ 0.5 ≤ 1`, `1e-6 > 0`) the effective inputs pass every validation of
@@ -675,7 +698,7 @@ example :
     prepare exK [("m", exM)] exReqS =
       prepare exK [("m", exM)] { exReqS with localTrust := .inline (renderI exM) } := by
   obtain ⟨h1, _, _, _, h5, h6, _⟩ :=
-    stored_request_reduces 10 exK [("m", exM)] exReqS "m" exM rfl (by decide) exM_inv
+    stored_request_reduces 10 exK [("m", exM)] exReqS "m" exM rfl (by simp [Store.get?]) exM_inv
   refine ⟨h5 ⟨exReq_valid.preTrust, trivial, nofun, nofun, nofun, nofun, nofun, nofun, nofun⟩, ?_, h1⟩
   rw [h6]; decide
 
@@ -693,6 +716,12 @@ example : ∃ o, computeCore 100 exK [] exReq = .ok o ∧
 example := endpoints_agree 100 exK [] exReq
 example (o : ComputeOut ℚ) (h : computeCore 100 exK [] exReq = .ok o) :=
   compute_scores_def 100 exK [] exReq o h
+
+example (o : ComputeOut ℚ) (h : computeCore 100 exK [] exReq = .ok o) :=
+  scores_discounted 100 exK [] exReq_valid o h
+example (eff : Effective ℚ) (hp : prepare exK [] exReq = some eff) (res : ComputeResult ℚ)
+    (hc : compute 100 eff.c eff.p eff.a eff.e eff.opts = .ok res) :=
+  compute_result_wf 100 exK [] exReq_valid hp hc
 
 end examples
 
